@@ -621,10 +621,10 @@ int main(int argc, char** argv) {
                     pool->serializeGrammars(&out);
                     gPoolMM = new CountMM;
                     XMLGrammarPoolImpl* restored = new XMLGrammarPoolImpl(gPoolMM);
-                    BinMemInputStream in(out.getRawBuffer(), (XMLSize_t)out.getSize(), BinMemInputStream::BufOpt_Reference, mm);
+                    BinMemInputStream in(out.getRawBuffer(), (XMLSize_t)out.curPos(), BinMemInputStream::BufOpt_Reference, mm);
                     restored->deserializeGrammars(&in);
                     delete pool; pool = restored;
-                    poolNote += "restored(" + std::to_string((long)out.getSize()) + " bytes) ";
+                    poolNote += "restored(" + std::to_string((long)out.curPos()) + " bytes) ";
                 } catch (const XMLException& e) { poolNote += "SER-EXC " + esc(e.getMessage()) + " "; }
                 catch (...) { poolNote += "SER-EXC "; }
             }
